@@ -161,13 +161,14 @@ void h_finish_terms (void)
   for (i = 0; i < NT; i++) { T[i].term_p = 1; T[i].u.term.term_num = i; T[i].u.term.code = codes[i]; P[i] = &T[i]; }
   S.terms_vlo.vlo_start = (char *) P; S.terms_vlo.vlo_free = (char *) (P + n); S.terms_vlo.vlo_boundary = (char *) (P + NT);
   S.symb_code_trans_vect = NULL;
+  HAVOC (gh_vk);           /* the arbitrary slot the loop contract of the NULL-fill loop speaks about */
   symb_finish_adding_terms ();
   if (S.symb_code_trans_vect != NULL)
     {
       long span = (long) S.symb_code_trans_vect_end - (long) S.symb_code_trans_vect_start;
       VACUITY_CANARY_N ("dense vector built");
       __CPROVER_assert (span >= 1 && span <= SYMB_CODE_TRANS_VECT_SIZE, "vector span is positive and below the documented limit");
-      HAVOC (k); __CPROVER_assume (k < (size_t) span);
+      k = gh_vk; __CPROVER_assume (k < (size_t) span);
       /* VEC_INV: every slot is NULL or the terminal with exactly that code */
       __CPROVER_assert (S.symb_code_trans_vect[k] == NULL
                         || (S.symb_code_trans_vect[k]->term_p && (long) S.symb_code_trans_vect[k]->u.term.code == (long) S.symb_code_trans_vect_start + (long) k),
